@@ -55,7 +55,7 @@ pub use crate::cast::union::*;
 
 use arrow_buffer::IntervalMonthDayNano;
 use arrow_data::ByteView;
-use chrono::{NaiveTime, Offset, TimeZone, Utc};
+use chrono::{NaiveDateTime, NaiveTime, Offset, TimeZone, Utc};
 use std::cmp::Ordering;
 use std::sync::Arc;
 
@@ -630,8 +630,21 @@ fn as_time_res_with_timezone<T: ArrowPrimitiveType>(
     })
 }
 
+/// Wall clock reading of a timestamp in `tz` (UTC if `None`); `None` if the
+/// value is outside the range chrono can represent
+fn as_local_datetime<T: ArrowPrimitiveType>(v: i64, tz: Option<Tz>) -> Option<NaiveDateTime> {
+    match tz {
+        Some(tz) => {
+            let d = as_datetime_with_timezone::<T>(v, tz)?;
+            d.naive_utc().checked_add_offset(d.offset().fix())
+        }
+        None => as_datetime::<T>(v),
+    }
+}
+
 fn timestamp_to_date32<T: ArrowTimestampType>(
     array: &PrimitiveArray<T>,
+    cast_options: &CastOptions,
 ) -> Result<ArrayRef, ArrowError> {
     let err = |x: i64| {
         ArrowError::CastError(format!(
@@ -640,20 +653,14 @@ fn timestamp_to_date32<T: ArrowTimestampType>(
         ))
     };
 
-    let array: Date32Array = match array.timezone() {
-        Some(tz) => {
-            let tz: Tz = tz.parse()?;
-            array.try_unary(|x| {
-                as_datetime_with_timezone::<T>(x, tz)
-                    .ok_or_else(|| err(x))
-                    .map(|d| Date32Type::from_naive_date(d.date_naive()))
-            })?
-        }
-        None => array.try_unary(|x| {
-            as_datetime::<T>(x)
-                .ok_or_else(|| err(x))
-                .map(|d| Date32Type::from_naive_date(d.date()))
-        })?,
+    let tz: Option<Tz> = array.timezone().map(|tz| tz.parse()).transpose()?;
+    let convert =
+        |x: i64| as_local_datetime::<T>(x, tz).map(|d| Date32Type::from_naive_date(d.date()));
+    let array: Date32Array = if cast_options.safe {
+        // values without a datetime representation become null
+        array.unary_opt(convert)
+    } else {
+        array.try_unary(|x| convert(x).ok_or_else(|| err(x)))?
     };
     Ok(Arc::new(array))
 }
@@ -1936,16 +1943,16 @@ pub fn cast_with_options(
             Ok(make_timestamp_array(&adjusted, *to_unit, to_tz.clone()))
         }
         (Timestamp(TimeUnit::Microsecond, _), Date32) => {
-            timestamp_to_date32(array.as_primitive::<TimestampMicrosecondType>())
+            timestamp_to_date32(array.as_primitive::<TimestampMicrosecondType>(), cast_options)
         }
         (Timestamp(TimeUnit::Millisecond, _), Date32) => {
-            timestamp_to_date32(array.as_primitive::<TimestampMillisecondType>())
+            timestamp_to_date32(array.as_primitive::<TimestampMillisecondType>(), cast_options)
         }
         (Timestamp(TimeUnit::Second, _), Date32) => {
-            timestamp_to_date32(array.as_primitive::<TimestampSecondType>())
+            timestamp_to_date32(array.as_primitive::<TimestampSecondType>(), cast_options)
         }
         (Timestamp(TimeUnit::Nanosecond, _), Date32) => {
-            timestamp_to_date32(array.as_primitive::<TimestampNanosecondType>())
+            timestamp_to_date32(array.as_primitive::<TimestampNanosecondType>(), cast_options)
         }
         (Timestamp(TimeUnit::Second, _), Date64) => Ok(Arc::new(match cast_options.safe {
             true => {
